@@ -42,6 +42,14 @@ CLAIMS = {
          "must equal the exact Kleene max-plus optimum and the Viterbi-semiring sum_product. Any exception is a failure. Sampled, bounded sizes.",
          "Trusted: vf/oracle_fgg.py NumEval(MaxPlus) Kleene reference, the predicate in vf/props/c04.py, Hypothesis.",
          "DESIGN.md section 5, C04"),
+ 'C05': ("Hypothesis-generated grammars x 3 methods x 5 entry points; round-trip oracle (own inlining of fresh nonterminals must reproduce each rule, identity then isomorphism) + differential sum-product + instrumentation of the method argument",
+         "For generated HRG/FGGs with isolated nodes, several components, nullary/repeated-attachment edges and clash-baiting nonterminal names, "
+         "each of factorize_fgg/factorize_hrg/factorize_rule (labels None, a label set, a rule of a copy) x {min_fill,quickbb,acb} is checked: "
+         "start, terminals, factors, domains unchanged; every fresh nonterminal has exactly one rule and inlining them reproduces the original "
+         "rule (no node/edge lost, duplicated, re-attached); fresh names distinct and unused; no new rule wider than its origin; the method "
+         "reaching tree_decomposition equals the requested one; sum-product unchanged and equal to the independent evaluator. Sampled.",
+         "Trusted: own inliner/isomorphism in vf/props/c05.py + vf/iso.py, vf/oracle_fgg.py, harness-side wrapper recording tree_decomposition's method.",
+         "DESIGN.md section 5, C05"),
 }
 
 NOT_YET = {}   # id -> reason (filled while the framework is being built)
